@@ -133,6 +133,60 @@ def stack (t : Transport) (join : JoinFn) (allowedNetworkHosts : Option (List Pa
   | some allowedHosts => redirectResolver (restricted (some allowedHosts) t) join allowRedirects req
   | none => redirectResolver (bare t) join allowRedirects req
 
+/-! ### the request sites of sdk/src
+
+Not every HTTP request of the SDK goes through `Context::resolver()`. The sites (inventoried from
+the source by `translators/c28_http_sites.py`, see `Props/C26.lean`, `request_sites_pinned`):
+
+* `contextResolver` — `context.resolver()` / `resolver_async()` of the caller's Context (remote
+  manifests, OCSP, did:web, time-stamp requests issued with the caller's Context): the stack above.
+* `signerTimestamp` — the default `Signer::send_timestamp_request` /
+  `TimeStampProvider::send_time_stamp_request` (sync and async): `let context = Context::new();`
+  — a Context with *default* settings (`allowed_network_hosts = None`, `allow_redirects = true`),
+  whatever the caller configured.
+* `remoteSigner` — `RemoteSigner::sign` (settings/signer.rs):
+  `SyncGenericResolver::with_redirects()`, the bare HTTP client following redirects by itself.
+-/
+
+inductive Site
+  | contextResolver
+  | signerTimestamp
+  | remoteSigner
+  deriving DecidableEq, Repr
+
+/-- An HTTP client that follows redirects natively (`ureq::agent()` / reqwest's default policy):
+no allow-list, no target classification, no header policy of the SDK. Only what the properties
+need is modelled: it re-issues the request to whatever `Location` resolves to, at most
+`fuel - 1` times (the clients' own limits are not the SDK's). -/
+def nativeLoop (t : Transport) (join : JoinFn) : Nat → Nat → Request → St → St × Except Err Response
+  | 0, _, _, st => (st, .error .tooManyRedirects)
+  | fuel + 1, hop, req, st =>
+    let st' : St := { attempts := st.attempts ++ [req], trace := st.trace ++ [req] }
+    match t hop req with
+    | .error e => (st', .error e)
+    | .ok resp =>
+      match redirectLocation resp with
+      | none => (st', .ok resp)
+      | some loc =>
+        match join hop req.uri loc with
+        | .ok target => nativeLoop t join fuel (hop + 1) { req with uri := target } st'
+        | _ => (st', .error .other)
+
+def nativeClient (t : Transport) (join : JoinFn) (req : Request) : St × Except Err Response :=
+  nativeLoop t join (maxRedirects + 1) 0 req {}
+
+/-- What a request issued at `site` goes through, given the *caller's* configuration. -/
+def siteStack (site : Site) (t : Transport) (join : JoinFn)
+    (allowedNetworkHosts : Option (List Pattern)) (allowRedirects : Bool) (req : Request) :
+    St × Except Err Response :=
+  match site with
+  | .contextResolver => stack t join allowedNetworkHosts allowRedirects req
+  | .signerTimestamp => stack t join none true req
+  | .remoteSigner => nativeClient t join req
+
+def parseSite (s : String) : Site :=
+  if s == "tsa" then .signerTimestamp else if s == "remote" then .remoteSigner else .contextResolver
+
 /-! ### line protocol -/
 
 /-- `~` = no allow-list, `-` = empty list, else comma-separated hex patterns -/
@@ -171,6 +225,27 @@ def handle (toks : List String) : String :=
     let c := parseChain rest
     let r := stack c.transport c.join (parseAllow (field rest "allow")) c.redirects c.request
     resultStr r.2 ++ " n=" ++ toString r.1.trace.length
+  | "site" :: rest =>
+    -- a request issued at a request site under the caller's configuration; the reply names only
+    -- what the harness can observe at every site: ok / refusal class / other failure, and the
+    -- number of requests that reached the transport
+    let c := parseChain rest
+    let r := siteStack (parseSite (field rest "kind")) c.transport c.join (parseAllow (field rest "allow"))
+      c.redirects c.request
+    let cls := match r.2 with
+      | .ok _ => "ok"
+      | .error .uriDisallowed => "uri-disallowed"
+      | .error .redirectDisallowed => "redirect-disallowed"
+      | .error .targetDisallowed => "target-disallowed"
+      | .error _ => "err"
+    cls ++ " n=" ++ toString r.1.trace.length
   | _ => "bad-op"
+
+/-- driver entry for C27: its own ops, plus `site` (the request sites are defined here, on top of
+the allow-list stack) -/
+def handle27 (toks : List String) : String :=
+  match toks with
+  | "site" :: _ => handle toks
+  | _ => C2pa.C27.handle toks
 
 end C2pa.C26
